@@ -247,7 +247,13 @@ func ConnectAndAuthenticateWithConfig(ctx context.Context, config *ClientConfig)
 
 		// Perform authentication handshake
 		if config.Security != nil {
-			auth := security.NewAuthenticator(config.Security, client.stream)
+			// The handshake mutates its config per connection (NewAuthenticator stores
+			// this connection's ephemeral ECDH public key in it), so hand it a private
+			// shallow copy rather than the caller's config, which concurrent connections
+			// may share -- as server.ServeConn and the CCB dialers already do. Without
+			// this, simultaneous connections race on, and advertise each other's, key.
+			secConfig := *config.Security
+			auth := security.NewAuthenticator(&secConfig, client.stream)
 			negotiation, err := auth.ClientHandshake(ctx)
 
 			// Check if this is a session resumption error
